@@ -771,7 +771,7 @@ impl<'a> VisitMut for Rw<'a> {
                                     let i = &c.args[1];
                                     let v = &a.right;
                                     self.fire("R-CHECKED.set");
-                                    replacement = Some(parse_quote!(checked_set(&mut #b, #i, #v)));
+                                    replacement = Some(parse_quote!({ let __ci: usize = #i; let __cv = #v; checked_bounds(#b.len(), __ci); #b[__ci] = __cv; }));
                                 }
                             }
                         }
